@@ -381,7 +381,7 @@ def weave_fn(fn_text, contract, unit, log, features_on, in_trait_impl=False, rea
                 k22 += 1
                 lm = re.search(r"'\w+\s*:\s*$", text[:kw_start])
                 ins_at = lm.start() if lm else kw_start
-                text = (text[:ins_at] + 'let %s = %s;\n' % (tmp, em.group(2).strip()) + text[ins_at:es] + ' ' + tmp + '.data.iter() ' + text[lopen:])
+                text = (text[:ins_at] + 'let %s = &%s;\n' % (tmp, em.group(2).strip()) + text[ins_at:es] + ' ' + tmp + '.data.iter() ' + text[lopen:])
                 log.append(dict(rule='R22', fn=name, what='iterated temporary bound to %s: %s' % (tmp, ' '.join(em.group(2).split())[:100])))
                 done = False
                 break
@@ -726,6 +726,11 @@ def build_unit(unit_dir, repo, reach=False):
                     raise Unsupported("%s: cfg feature %s not configured" % (path[-1], feat))
                 if on == bool(am.group(1)):
                     raise Unsupported("%s: function is compiled out in the verified configuration" % path[-1])
+        for (rx, repl, rule, why) in U.get('regex_rewrites', []):
+            n = len(re.findall(rx, fn_text))
+            if n:
+                fn_text = re.sub(rx, repl, fn_text)
+                G.log.append(dict(rule=rule, fn=path[-1], what='%s (x%d)' % (why, n)))
         for acc in inline_acc:
             n = fn_text.count(acc['call'])
             if n:
@@ -798,6 +803,9 @@ def build_unit(unit_dir, repo, reach=False):
                     t = t.replace(old, new)
                     G.log.append(dict(rule='type-rewrite', fn=path[-1], what='%r => %r' % (old, new)))
                 t = rule_R1_R2(t, G.log, path[-1], features_on) if '#[cfg' in t else t
+                if drops:
+                    # doc comments of dropped fields would dangle: remove `///` comment lines (comments only)
+                    t = re.sub(r'^[ \t]*///[^\n]*\n', '', t, flags=re.M)
                 P.append(Piece(t + '\n\n'))
                 G.struct_texts = getattr(G, 'struct_texts', {})
                 G.struct_texts[path[-1]] = src.text[s:e]
